@@ -784,6 +784,11 @@ func (c *Conn) readRecordOrCCS(expectChangeCipherSpec bool) error {
 			if len(data) == 0 || expectChangeCipherSpec {
 				return c.in.setErrorLocked(c.sendAlert(alertUnexpectedMessage))
 			}
+			// 握手完成后（驻留期之外）到达的握手记录只可能是对端的重传：丢弃，
+			// 否则它们会无限累积在 handBuf 中。
+			if handshakeComplete {
+				continue
+			}
 			c.handBuf.Write(data)
 			// 同一数据报中后续的握手记录一并读入；其它类型的记录（会话重用时紧随 ServerHello 的
 			// CCS + Finished）留在缓冲区，待握手层处理完当前消息（协商版本、准备好密钥）后再读取，
@@ -1468,7 +1473,7 @@ func (c *Conn) ReadFrom(p []byte) (n int, addr net.Addr, err error) {
 					return 0, c.remoteAddr, io.EOF
 				}
 			case recordTypeHandshake:
-				c.handBuf.Write(plaintext)
+				// 握手完成后的握手记录（对端重传）：丢弃，不再缓存
 			}
 			continue
 		}
